@@ -354,7 +354,6 @@ func VString(v *ast.Value) string { panic("ghost") }
 // C03: every directive definition of every service is in the merged schema (the last service wins on a shared name)
 //@ func mergeDirectives
 //@ props C03
-//@ requires forall(k, 0, len(sources), sources[k] != nil)
 //@ ensures[kept] result != nil && forall(k, 0, len(sources), forallT(n, string, has(sources[k].Directives, n) ==> has(result, n)))
 //@ ensures[only] forallT(n, string, has(result, n) ==> exists(k, 0, len(sources), has(sources[k].Directives, n) && sources[k].Directives[n] == result[n]))
 //@ modifies fresh
